@@ -72,6 +72,16 @@ type runState struct {
 	tmCivil  map[string][2]int64 // day term -> (year, month) decided on this path
 	assumeN  int
 	tryDepth int
+	facts    map[string]bool // conditions already decided on this path
+}
+
+func (in *Interp) setFact(t *Term, val bool) {
+	r := in.run
+	if r.facts == nil {
+		r.facts = map[string]bool{}
+	}
+	r.facts[t.S] = val
+	r.facts[in.TC.Not(t).S] = !val
 }
 
 // Stats of one exploration.
@@ -178,7 +188,11 @@ func (in *Interp) branch(cond *Term) bool {
 	if in.run == nil {
 		panic(unsupported{"symbolic branch outside exploration"})
 	}
+	if v, ok := in.run.facts[cond.S]; ok {
+		return v
+	}
 	if d := in.nextDecision(dBranch, cond.S); d != nil {
+		in.setFact(cond, d.taken)
 		return d.taken
 	}
 	if in.exp != nil {
@@ -191,12 +205,15 @@ func (in *Interp) branch(cond *Term) bool {
 		in.Solver.Push()
 		in.Solver.Assert(cond)
 		in.pushDecision(decision{kind: dBranch, cond: cond.S, term: cond, taken: true, hasAlt: true, pushed: true})
+		in.setFact(cond, true)
 		return true
 	case ft:
 		in.pushDecision(decision{kind: dBranch, cond: cond.S, term: cond, taken: true})
+		in.setFact(cond, true)
 		return true
 	case ff:
 		in.pushDecision(decision{kind: dBranch, cond: cond.S, term: cond, taken: false})
+		in.setFact(cond, false)
 		return false
 	}
 	panic(pathEnd{"infeasible"})
@@ -210,7 +227,14 @@ func (in *Interp) assume(cond *Term) {
 	case "false":
 		panic(pathEnd{"assume"})
 	}
+	if v, ok := in.run.facts[cond.S]; ok {
+		if !v {
+			panic(pathEnd{"assume"})
+		}
+		return
+	}
 	if d := in.nextDecision(dAssume, cond.S); d != nil {
+		in.setFact(cond, true)
 		return
 	}
 	if !in.feasible(cond) {
@@ -219,6 +243,7 @@ func (in *Interp) assume(cond *Term) {
 	in.Solver.Push()
 	in.Solver.Assert(cond)
 	in.pushDecision(decision{kind: dAssume, cond: cond.S, term: cond, taken: true, pushed: true})
+	in.setFact(cond, true)
 }
 
 // concretize enumerates the feasible values of a symbolic integer by forking.
@@ -367,10 +392,17 @@ func (in *Interp) obligation(fr *frame, cond value, label string, finding string
 	default:
 		panic(fmt.Sprintf("obligation: %T", cond))
 	}
+	if v, ok := in.run.facts[ct.S]; ok && v {
+		st.Obligations++
+		st.TrivialOblig++
+		st.Discharged++
+		return
+	}
 	if d := in.nextDecision(dOblig, label+":"+ct.S); d != nil {
 		if !d.taken {
 			panic(pathEnd{"stop"})
 		}
+		in.setFact(ct, true)
 		return
 	}
 	st.Obligations++
@@ -438,6 +470,7 @@ func (in *Interp) obligation(fr *frame, cond value, label string, finding string
 	} else {
 		in.pushDecision(decision{kind: dOblig, cond: label + ":" + ct.S, term: ct, taken: true})
 	}
+	in.setFact(ct, true)
 }
 
 func clip(s string, n int) string {
